@@ -126,5 +126,15 @@ PROPS["C16"] = {
                     "sizes below 2^63 (positions are file offsets; seeks fit an i64)"],
 }
 
+PROPS["C15"] = {
+    "kind": "abi",
+    "modules": ["C15"],
+    "required_theorems": ["status_discriminants", "error_code", "status_constants", "header_agrees_with_rust", "dart_agrees_with_rust",
+                          "structs_agree", "layouts_defined", "update_result_layout", "path_roundtrip", "result_roundtrip", "double_free_flagged"],
+    "assumptions": ["the translator tools/extract_abi.py (regexes over the three texts; identifier equality by table index)",
+                    "LP64 layout function of the model; real allocator behaviour is runtime (valgrind memcheck / ASan as supporting evidence)",
+                    "Dart is not installed: the Dart side is checked as text, FFI marshalling is trusted"],
+}
+
 import special
 SPECIAL = special.SPECIAL
